@@ -466,6 +466,8 @@ func (in *Interp) join() {
 		if len(runnable) > 1 {
 			tr := in.tc.BoolConst(true)
 			pick = in.decide(len(runnable), func(i int) *Term { return tr })
+			// the native twin's scheduler reads the same choice from the tape
+			in.tape = append(in.tape, TapeEvent{Tag: "__sched", Kind: "choose", Choice: pick})
 		}
 		t := runnable[pick]
 		s.current = t
